@@ -36,25 +36,149 @@ func (c *Ctx) SaveMonotone(ob *core.Obligation, r *Roles) {
 		return
 	}
 	c.Touch(fn)
-	pc := core.NewPathConds(fn)
-	// the balance cell(s): results of balance-reader calls
-	var cells []*ssa.Call
-	for _, ci := range core.Calls(fn) {
-		if call, ok := ci.(*ssa.Call); ok {
-			if sc := call.Call.StaticCallee(); sc != nil && r.IsBalanceReader(sc) {
-				cells = append(cells, call)
+	// sites: a function, the balance cell it rewrites, and how the amount is known non-negative
+	type site struct {
+		fn    *ssa.Function
+		cell  ssa.Value
+		amtOK func(amt ssa.Value) bool // beyond a test on the path in fn itself
+	}
+	var sites []site
+	isReaderResult := func(v ssa.Value) bool {
+		call, ok := core.Strip(v).(*ssa.Call)
+		return ok && call.Call.StaticCallee() != nil && r.IsBalanceReader(call.Call.StaticCallee())
+	}
+	// producedByReader: v is the k-th result of a helper every successful return of which
+	// hands back a reader result there
+	producedByReader := func(v ssa.Value) bool {
+		ex, ok := core.Strip(v).(*ssa.Extract)
+		if !ok {
+			return false
+		}
+		call, ok := ex.Tuple.(*ssa.Call)
+		if !ok {
+			return false
+		}
+		e := call.Call.StaticCallee()
+		if e == nil || len(e.Blocks) == 0 || relOfFn(e) != relOfFn(fn) {
+			return false
+		}
+		epc := core.NewPathConds(e)
+		n := 0
+		for _, ret := range core.Returns(e) {
+			if errorReturn(e, ret, epc) || ex.Index >= len(ret.Results) {
+				continue
+			}
+			n++
+			if !isReaderResult(resolveLocal(ret.Results[ex.Index])) {
+				return false
 			}
 		}
+		c.Touch(e)
+		return n > 0
 	}
-	if len(cells) == 0 {
+	// nonNegOrNilFromProducer: v is the k-th result of a helper every successful return of which
+	// is reached only where that result is nil or was tested non-negative
+	nonNegOrNilFromProducer := func(v ssa.Value) bool {
+		ex, ok := core.Strip(v).(*ssa.Extract)
+		if !ok {
+			return false
+		}
+		call, ok := ex.Tuple.(*ssa.Call)
+		if !ok {
+			return false
+		}
+		e := call.Call.StaticCallee()
+		if e == nil || len(e.Blocks) == 0 || relOfFn(e) != relOfFn(fn) {
+			return false
+		}
+		epc := core.NewPathConds(e)
+		n := 0
+		for _, ret := range core.Returns(e) {
+			if errorReturn(e, ret, epc) || ex.Index >= len(ret.Results) {
+				continue
+			}
+			n++
+			res := ret.Results[ex.Index]
+			if core.IsNilConst(res) {
+				continue
+			}
+			k := cellKey(res)
+			good := epc.Requires(ret.Block(), func(l core.Lit) bool {
+				if bo, ok := l.Cond.(*ssa.BinOp); ok && (bo.Op == token.EQL || bo.Op == token.NEQ) {
+					var other ssa.Value
+					if core.IsNilConst(bo.Y) {
+						other = bo.X
+					} else if core.IsNilConst(bo.X) {
+						other = bo.Y
+					}
+					if other != nil && cellKey(other) == k && (bo.Op == token.EQL) == l.Val {
+						return true // nil on this path
+					}
+				}
+				cmp, rel, is := core.DecodeCond(l.Cond)
+				if !is {
+					return false
+				}
+				if !l.Val {
+					rel = core.ANY &^ rel
+				}
+				return cellKey(cmp.A) == k && (cmp.B == nil || isZeroBig(cmp.B)) && rel&core.LT == 0
+			})
+			if !good {
+				return false
+			}
+		}
+		return n > 0
+	}
+	for _, ci := range core.Calls(fn) {
+		call, ok := ci.(*ssa.Call)
+		if !ok {
+			continue
+		}
+		sc := call.Call.StaticCallee()
+		if sc == nil {
+			continue
+		}
+		if r.IsBalanceReader(sc) {
+			sites = append(sites, site{fn, call, nonNegOrNilFromProducer})
+			continue
+		}
+		// a helper of the package that is handed the balance to rewrite
+		if len(sc.Blocks) == 0 || relOfFn(sc) != relOfFn(fn) {
+			continue
+		}
+		for ai, a := range call.Call.Args {
+			if ai >= len(sc.Params) || !isBigPtrStd(a.Type()) || !(isReaderResult(resolveLocal(a)) || producedByReader(resolveLocal(a))) {
+				continue
+			}
+			theCall := call
+			helper := sc
+			sites = append(sites, site{sc, sc.Params[ai], func(amt ssa.Value) bool {
+				// the amount is a parameter of the helper: what the runner passes for it
+				p, ok := core.Strip(amt).(*ssa.Parameter)
+				if !ok {
+					return false
+				}
+				pi := paramIndex(helper, p)
+				if pi < 0 || pi >= len(theCall.Call.Args) {
+					return false
+				}
+				return nonNegOrNilFromProducer(resolveLocal(theCall.Call.Args[pi]))
+			}})
+			c.Touch(sc)
+		}
+	}
+	if len(sites) == 0 {
 		ob.Unknown("save:"+core.SSAName(fn), c.P.Pos(fn.Pos()), "the save runner does not read a balance")
 		return
 	}
 	n := 0
-	for _, cell := range cells {
-		key0 := cellKey(cell)
+	for _, st := range sites {
+		g := st.fn
+		pc := core.NewPathConds(g)
+		key0 := cellKey(st.cell)
 		var writers []*ssa.Call
-		for _, ci := range core.Calls(fn) {
+		for _, ci := range core.Calls(g) {
 			call, ok := ci.(*ssa.Call)
 			if !ok {
 				continue
@@ -81,7 +205,7 @@ func (c *Ctx) SaveMonotone(ob *core.Obligation, r *Roles) {
 			n++
 			_, m := core.BigMethod(&w.Call)
 			args := core.CallArgs(&w.Call)
-			key := "save:" + core.SSAName(fn) + ":" + m
+			key := "save:" + core.SSAName(g) + ":" + m
 			switch m {
 			case "Sub":
 				// balance -= amt with amt tested >= 0 on every path
@@ -100,6 +224,9 @@ func (c *Ctx) SaveMonotone(ob *core.Obligation, r *Roles) {
 					}
 					return cellKey(cmp.A) == amtKey && (cmp.B == nil || isZeroBig(cmp.B)) && rel&core.LT == 0
 				})
+				if !ok && st.amtOK != nil {
+					ok = st.amtOK(resolveLocal(args[2]))
+				}
 				if ok {
 					ob.Pass(key, c.P.Pos(w.Pos()), "subtracts an amount tested non-negative: lowers the balance")
 				} else {
@@ -113,6 +240,12 @@ func (c *Ctx) SaveMonotone(ob *core.Obligation, r *Roles) {
 					isZero = true
 				}
 				if !isZero {
+					// the new balance computed in a fresh number and copied in: judged by what the
+					// fresh number is
+					if m == "Set" && c.loweredCopy(g, args[1], st.cell, pc, w, st.amtOK) {
+						ob.Pass(key, c.P.Pos(w.Pos()), "set to (balance - amount, floored at zero) computed in a fresh number, amount tested non-negative")
+						continue
+					}
 					ob.Fail(key, c.P.Pos(w.Pos()), "the balance is set to something other than zero")
 					continue
 				}
@@ -139,6 +272,93 @@ func (c *Ctx) SaveMonotone(ob *core.Obligation, r *Roles) {
 	if n == 0 {
 		ob.Fail("save:"+core.SSAName(fn), c.P.Pos(fn.Pos()), "the save runner never lowers the balance it reads: later statements could move what was saved")
 	}
+}
+
+// loweredCopy: v is a fresh number whose in-place writes are Sub(balance, amount) with the
+// amount tested non-negative (and resets to zero): copying it into the balance lowers it, and
+// the copy happens only where the balance at entry was tested non-negative.
+func (c *Ctx) loweredCopy(g *ssa.Function, v, cell ssa.Value, pc *core.PathConds, at *ssa.Call, amtOK func(ssa.Value) bool) bool {
+	// a choice between such a number and zero
+	if ph, ok := core.Strip(v).(*ssa.Phi); ok {
+		some := false
+		for _, e := range ph.Edges {
+			if isZeroBig(e) {
+				continue
+			}
+			if !c.loweredCopy(g, e, cell, pc, at, amtOK) {
+				return false
+			}
+			some = true
+		}
+		return some
+	}
+	k := cellKey(v)
+	k0 := cellKey(cell)
+	n := 0
+	for _, ci := range core.Calls(g) {
+		call, ok := ci.(*ssa.Call)
+		if !ok {
+			continue
+		}
+		tn, m := core.BigMethod(&call.Call)
+		if tn == "" || bigReadersOnly[m] {
+			continue
+		}
+		args := core.CallArgs(&call.Call)
+		if cellKey(args[0]) != k {
+			continue
+		}
+		n++
+		switch m {
+		case "Sub":
+			if cellKey(args[1]) != k0 {
+				return false
+			}
+			amtKey := cellKey(args[2])
+			ok := pc.Requires(call.Block(), func(l core.Lit) bool {
+				cmp, rel, is := core.DecodeCond(l.Cond)
+				if !is {
+					return false
+				}
+				if !l.Val {
+					rel = core.ANY &^ rel
+				}
+				return cellKey(cmp.A) == amtKey && (cmp.B == nil || isZeroBig(cmp.B)) && rel&core.LT == 0
+			})
+			if !ok && amtOK != nil {
+				ok = amtOK(resolveLocal(args[2]))
+			}
+			if !ok {
+				return false
+			}
+		case "Set", "SetInt64", "SetUint64":
+			isZero := false
+			if m == "Set" {
+				isZero = isZeroBig(args[1])
+			} else if kk, ok := core.ConstInt(core.Strip(args[1])); ok && kk == 0 {
+				isZero = true
+			}
+			if !isZero {
+				return false
+			}
+		default:
+			return false
+		}
+	}
+	if n == 0 {
+		return false
+	}
+	// the copy itself: only where the balance at entry (nothing has written it yet) was >= 0 ... > 0
+	return pc.Requires(at.Block(), func(l core.Lit) bool {
+		cmp, rel, is := core.DecodeCond(l.Cond)
+		if !is || cellKey(cmp.A) != k0 || !(cmp.B == nil || isZeroBig(cmp.B)) {
+			return false
+		}
+		if !l.Val {
+			rel = core.ANY &^ rel
+		}
+		return rel&core.LT == 0
+	})
 }
 
 // instrCanPrecede: a can execute before b.
